@@ -15,7 +15,10 @@ from harness.common import outcome_of, model_outcome
 RULE = ("chunks (C,Z,Y,X) with C in 1..3 and axes 1..9 (quick) / 1..14 plus 64^3 and 32-bit blocks judged by the Python oracles only (thorough); blocks from "
         "{1,2,3,4,8}^3 incl. non-cubic, larger than the chunk, not dividing it; label pools of size "
         "1,2,3,4,5,16,17,256,257,300 laid out per block region from a few sub-pools (repeated tables), "
-        "values from {0,1,2^32-1,2^32,2^53+1,2^64-1,...}; hand-built edge cases first. "
+        "values from {0,1,2^32-1,2^32,2^53+1,2^64-1,...}; hand-built edge cases first; the caller's array is "
+        "presented (stratified) as native / big-endian / narrower unsigned type / Fortran order / strided view / "
+        "read-only and must be left unchanged; sessions: one encoder object encodes and decodes several chunks "
+        "(same shape, another shape, same shape again) and every earlier result is re-checked afterwards. "
         "non-trivial = at least 2 blocks in a channel and a block with >= 2 labels")
 
 POOL_SIZES = [1, 2, 3, 4, 5, 16, 17, 256, 257, 300]
@@ -41,6 +44,37 @@ def arr_of(dt, C, shape_xyz, values):
     import numpy as np
     X, Y, Z = shape_xyz
     return np.array(values, dtype=np.dtype(dt).newbyteorder("<")).reshape(C, Z, Y, X)
+
+
+INPUT_FORMS = ["native", "big_endian", "narrower", "fortran", "strided", "readonly"]
+
+
+def present(a, form, dt):
+    """The same label VALUES as [a] (little-endian, C order), held the way a caller may
+    hold them: other byte order, a narrower unsigned type that casts safely, non-contiguous
+    memory, a read-only buffer, nested Python lists.  Returns (object for encode(), form used)."""
+    import numpy as np
+    if form == "big_endian":
+        return a.astype(a.dtype.newbyteorder(">")), form
+    if form == "narrower":
+        top = int(a.max()) if a.size else 0
+        for cand in ("uint8", "uint16", "uint32"):
+            if np.dtype(cand).itemsize < a.dtype.itemsize and top < 2 ** (8 * np.dtype(cand).itemsize):
+                order = ">" if top % 2 else "<"
+                return a.astype(np.dtype(cand).newbyteorder(order)), form + ":" + cand
+        return a, "native"
+    if form == "fortran":
+        return np.asfortranarray(a), form
+    if form == "strided":
+        big = np.zeros(tuple(2 * s + 1 for s in a.shape), dtype=a.dtype)
+        view = big[1::2, 1::2, 1::2, 1::2]
+        view[...] = a
+        return view, form
+    if form == "readonly":
+        b = np.frombuffer(a.tobytes(), dtype=a.dtype).reshape(a.shape)
+        assert not b.flags.writeable
+        return b, form
+    return a, "native"
 
 
 def canon_arr(a):
@@ -259,10 +293,18 @@ def check_cases(R, cases, model_level="full", kind="gen"):
     # 2. implementation encodings
     impl_bufs = []
     encoders = []
-    for cs, a in zip(cases, arrays):
+    arg_changed = []
+    for i, (cs, a) in enumerate(zip(cases, arrays)):
         enc = make_encoder(cs["dt"], cs["C"], cs["blk"])
         encoders.append(enc)
-        impl_bufs.append(outcome_of(lambda: bytes(enc.encode(a))))
+        # stratified, not random: every form occurs in every batch, for both label types
+        form = cs.get("form") or INPUT_FORMS[(i + (0 if cs["dt"] == "uint32" else 3)) % len(INPUT_FORMS)]
+        given, used = present(a, form, cs["dt"])
+        cs["_form"] = used
+        before = (given.dtype.str, given.shape, given.strides, given.tobytes())
+        impl_bufs.append(outcome_of(lambda: bytes(enc.encode(given))))
+        after = (given.dtype.str, given.shape, given.strides, given.tobytes())
+        arg_changed.append(before != after)
 
     # 3. model spec / decoder on the implementation's bytes
     reqs2 = []
@@ -276,9 +318,13 @@ def check_cases(R, cases, model_level="full", kind="gen"):
                 reqs2.append(dec_request(cs["dt"], cs["C"], cs["blk"], cs["shape"], ib[1]))
     rep2 = iter(R.model.batch(reqs2))
 
-    for cs, a, enc, ib, er in zip(cases, arrays, encoders, impl_bufs, enc_replies):
+    kept = []     # (case, array object returned by decode(), expected) re-checked after the whole batch
+    for cs, a, enc, ib, er, changed in zip(cases, arrays, encoders, impl_bufs, enc_replies, arg_changed):
         case = {"dt": cs["dt"], "C": cs["C"], "shape": cs["shape"], "blk": cs["blk"],
-                "data": a.tobytes(), "note": cs.get("note", kind)}
+                "data": a.tobytes(), "note": cs.get("note", kind), "form": cs["_form"]}
+        R.count("input_form:" + cs["_form"].split(":")[0])
+        if changed:
+            R.violation("encode() modified the caller's array", case, {})
         X, Y, Z = cs["shape"]
         want = canon_arr(a)
         R.count(f"model_level:{model_level}")
@@ -331,13 +377,23 @@ def check_cases(R, cases, model_level="full", kind="gen"):
         if len(buf) % 4:
             R.violation("encoded length is not a multiple of 4", case, {"len": len(buf)})
         # oracle 3: the package's own decoder
-        idec = impl_arr(outcome_of(lambda: enc.decode(buf, cs["shape"])))
+        raw_dec = outcome_of(lambda: enc.decode(buf, cs["shape"]))
+        idec = impl_arr(raw_dec)
         if idec != ["ok", want]:
             R.violation("the package's decoder does not recover the chunk", case, {"impl": _short(idec)})
+        elif len(kept) < 40:
+            kept.append((case, raw_dec[1], want))
         if model_level == "full":
             mdec = model_arr(next(rep2), cs["dt"])
             if mdec != idec:
                 R.disagree("decode of valid bytes vs cseg_decode", case, _short(idec), _short(mdec))
+    recheck_kept(R, kept, "an array returned by decode() changed after later encode()/decode() calls")
+
+
+def recheck_kept(R, kept, what):
+    for case, arr, want in kept:
+        if canon_arr(arr) != want:
+            R.violation(what, case, {"now": _short(canon_arr(arr))})
 
 
 def _short(o):
@@ -348,11 +404,66 @@ def _short(o):
     return o
 
 
+def run_sessions(R, quick):
+    """One encoder object used for several chunks (same shape, another shape, the same
+    shape again), as PrecomputedIO does for the chunks of a scale: every result kept from
+    an earlier call must still be right after the later calls, and so must the bytes."""
+    import numpy as np
+    rng = R.rng
+    configs = []
+    for dt in ("uint32", "uint64"):
+        for C in (1, 2):
+            for _ in range(2 if quick else 12):
+                blk = [rng.choice(BLOCK_AXIS) for _ in range(3)]
+                shape = [rng.randint(1, 6) for _ in range(3)]
+                other = [s + rng.choice([1, 2]) for s in shape]
+                configs.append((dt, C, blk, shape, other))
+    for dt, C, blk, shape, other in configs:
+        enc = make_encoder(dt, C, blk)
+        plan = [shape, shape, other, shape, shape]
+        arrays, bufs, snaps, decs = [], [], [], []
+        for i, sh in enumerate(plan):
+            vals = gen_values(rng, dt, C, sh, blk, rng.choice([1, 2, 3, 5, 17]))
+            a = arr_of(dt, C, sh, vals)
+            given, _used = present(a, INPUT_FORMS[(i + len(configs)) % len(INPUT_FORMS)], dt)
+            arrays.append(a)
+            b = enc.encode(given)
+            bufs.append(b)
+            snaps.append(bytes(b))
+        order = list(range(len(plan)))
+        rng.shuffle(order)
+        for i in order:
+            # a rejected buffer in between must not disturb anything either
+            if rng.random() < 0.3:
+                outcome_of(lambda: enc.decode(snaps[i][:-1], plan[i]))
+            decs.append((i, enc.decode(snaps[i], plan[i])))
+        case0 = {"dt": dt, "C": C, "blk": blk, "shapes": plan, "order": order,
+                 "data": [x.tobytes() for x in arrays], "note": "session"}
+        R.case(case0, nontrivial=True)
+        R.count("session")
+        for i, b in enumerate(bufs):
+            if bytes(b) != snaps[i]:
+                R.violation("bytes returned by encode() changed after later calls on the same encoder",
+                            dict(case0, index=i), {})
+            try:
+                ok = spec_decode_py(snaps[i], dt, C, plan[i], blk) == [int(v) for v in arrays[i].ravel()]
+            except ValueError:
+                ok = False
+            if not ok:
+                R.violation("independent Python format decoder does not recover the chunk (session)",
+                            dict(case0, index=i), {"bytes": snaps[i]})
+        for i, d in decs:
+            if canon_arr(d) != canon_arr(arrays[i]):
+                R.violation("an array returned by decode() is wrong after later decode() calls on the same "
+                            "encoder object", dict(case0, index=i), {"now": _short(canon_arr(d))})
+
+
 def run(R):
     R.rule = RULE
     rng = R.rng
     quick = R.tier == "quick"
     check_cases(R, edge_cases(), kind="edge")
+    run_sessions(R, quick)
     # exhaustive tiny shapes x blocks with two labels
     tiny = []
     for shape in itertools.product([1, 2, 3], repeat=3):
@@ -395,8 +506,33 @@ def run(R):
         if not R.dist.get(f"bits:{w}"):
             R.notes.append(f"generator did not produce a block with {w} bits in this run")
     R.extra["bit_width_histogram"] = {k: v for k, v in sorted(R.dist.items()) if k.startswith("bits:")}
-    R.notes.append("input arrays have the encoder's dtype (uint32 / uint64, little endian); "
-                   "the astype(casting='safe') front door of encode() is not modelled")
+    R.notes.append("encode() is given arrays whose dtype casts safely to the encoder's (other byte order, narrower "
+                   "unsigned types, any memory layout): the expected bytes are the model's encoding of the VALUES; "
+                   "unsafe casts (TypeError) are outside the property and not exercised")
+
+
+def _replay_session(case, datas):
+    """Same encoder object, the recorded chunks and decode order: True iff a kept result is wrong."""
+    import numpy as np
+    dt, C, blk, plan, order = case["dt"], case["C"], case["blk"], case["shapes"], case["order"]
+    enc = make_encoder(dt, C, blk)
+    arrays = [np.frombuffer(d, dtype=np.dtype(dt).newbyteorder("<")).reshape(C, sh[2], sh[1], sh[0]).copy()
+              for d, sh in zip(datas, plan)]
+    try:
+        bufs = [enc.encode(a) for a in arrays]
+        snaps = [bytes(b) for b in bufs]
+        decs = [(i, enc.decode(snaps[i], plan[i])) for i in order]
+    except Exception:  # noqa: BLE001
+        return True
+    if any(bytes(b) != s for b, s in zip(bufs, snaps)):
+        return True
+    for i, s in enumerate(snaps):
+        try:
+            if spec_decode_py(s, dt, C, plan[i], blk) != [int(v) for v in arrays[i].ravel()]:
+                return True
+        except ValueError:
+            return True
+    return any(canon_arr(d) != canon_arr(arrays[i]) for i, d in decs)
 
 
 def replay(R, payload):
@@ -406,13 +542,21 @@ def replay(R, payload):
     if "data" not in case:
         return True
     data = case["data"]
-    if isinstance(data, str):
-        data = bytes.fromhex(data[1:] if data.startswith("x") else data)
+
+    def unhex(d):
+        return bytes.fromhex(d[1:] if d.startswith("x") else d) if isinstance(d, str) else bytes(d)
+    if case.get("note") == "session":
+        return _replay_session(case, [unhex(d) for d in data])
+    data = unhex(data)
     dt, C, shape, blk = case["dt"], case["C"], case["shape"], case["blk"]
     X, Y, Z = shape
-    a = np.frombuffer(data, dtype=np.dtype(dt).newbyteorder("<")).reshape(C, Z, Y, X)
+    a = np.frombuffer(data, dtype=np.dtype(dt).newbyteorder("<")).reshape(C, Z, Y, X).copy()
     enc = make_encoder(dt, C, blk)
-    ib = outcome_of(lambda: bytes(enc.encode(a)))
+    given, _used = present(a, case.get("form", "native").split(":")[0], dt)
+    before = given.tobytes()
+    ib = outcome_of(lambda: bytes(enc.encode(given)))
+    if given.tobytes() != before:
+        return True
     if ib[0] != "ok":
         return True
     try:
